@@ -52,7 +52,7 @@ type observer struct {
 
 type scenario struct {
 	Name      string
-	Mode      string // ontime | adversarial | death
+	Mode      string // ontime | glitch | adversarial | death
 	Backend   string
 	HoldBeats int
 	Observers []observer
@@ -61,6 +61,9 @@ type scenario struct {
 	KillAt    int  // the holder's process stops before its KillAt-th backend operation (1-based)
 	ShortKill bool // ... or during it, if it is a write (half of the bytes reach the file)
 	Racers    int  // number of racing recoverers (1 or 2)
+	// glitch mode: the holder's GlitchAt-th backend operation after its Mkdir of the lock directory fails once with a
+	// transient error (the backend is left untouched by that operation); everything else is on time
+	GlitchAt int
 }
 
 type world struct {
@@ -79,9 +82,24 @@ type world struct {
 	outcome   []string
 	backend   afero.Fs
 	killed    bool
+	glitchOps int
+	glitched  string
 }
 
+// onTime: the holder's heart beat is never delayed by the schedule (ontime), or only loses one beat to one transient
+// backend error (glitch): in both the lock must never be reported stale, released or taken over.
+func (sc scenario) onTime() bool { return sc.Mode == "ontime" || sc.Mode == "glitch" }
+
 func (w *world) beforeOp(op *vfsx.Op) *vfsx.Inject {
+	if w.sc.Mode == "glitch" && op.Client == 0 && w.dirOwner == 0 && w.holding {
+		w.glitchOps++
+		if w.glitchOps == w.sc.GlitchAt {
+			w.glitched = op.String()
+			w.x.Note("transient error injected into the holder's operation %s", op)
+			return &vfsx.Inject{Err: errors.New("input/output error (transient)")}
+		}
+		return nil
+	}
 	if w.sc.Mode != "death" || op.Client != 0 || w.killed {
 		return nil
 	}
@@ -148,8 +166,8 @@ func (w *world) afterOp(op *vfsx.Op) {
 			}
 			w.lost = true
 			switch w.sc.Mode {
-			case "ontime":
-				w.x.Violate("live-lock-removed:mode=ontime", "observer %d removed the lock directory of a live holder whose heart beat is on time", c)
+			case "ontime", "glitch":
+				w.x.Violate("live-lock-removed:mode="+w.sc.Mode, "observer %d removed the lock directory of a live holder whose heart beat is on time", c)
 			case "adversarial":
 				if w.silence[c] <= 2*period {
 					w.x.Violate("live-lock-removed:without-two-periods-of-silence", "observer %d removed the live holder's lock although the newest heart-beat write it could have seen was %v old", c, w.silence[c])
@@ -198,6 +216,12 @@ func body(sc scenario) func(x *gosim.Exec) {
 			x.Note("holder begins release")
 			_ = holder.Unlock(x.Ctx())
 			w.outcome[0] = "released"
+			if sc.Mode == "glitch" {
+				w.outcome[0] = "released/no-glitch"
+				if w.glitched != "" {
+					w.outcome[0] = "released/glitch@" + strings.SplitN(w.glitched, "(", 2)[0]
+				}
+			}
 			if sc.Mode == "death" && !w.killed {
 				// the hold has fewer operations than KillAt: nothing was killed; recoverers find a released lock
 				w.killed = true
@@ -224,8 +248,8 @@ func body(sc scenario) func(x *gosim.Exec) {
 							x.Note("obs%d IsStale=%v (holder live: %v, silence seen %v)", i, stale, live, w.silence[i])
 							w.outcome[i] += map[bool]string{true: "S", false: "s"}[stale]
 							if stale && live && w.holding && !w.lost {
-								if sc.Mode == "ontime" {
-									x.Violate("live-lock-reported-stale:mode=ontime", "IsStale returned true for a live holder whose heart beat is on time")
+								if sc.onTime() {
+									x.Violate("live-lock-reported-stale:mode="+sc.Mode, "IsStale returned true for a live holder whose heart beat is on time")
 								} else if w.silence[i] <= 2*period {
 									x.Violate("stale-verdict-without-two-periods-of-silence", "IsStale returned true although the newest heart-beat write was %v old at the deciding Stat", w.silence[i])
 								}
@@ -244,8 +268,8 @@ func body(sc scenario) func(x *gosim.Exec) {
 							if err == nil {
 								w.outcome[i] += "A"
 								if live && w.holding && (!w.lost || w.silence[i] <= 2*period) {
-									if sc.Mode == "ontime" {
-										x.Violate("live-lock-taken-over:mode=ontime:call="+call, "an observer acquired the lock while the holder is alive, holding, and its heart beat on time")
+									if sc.onTime() {
+										x.Violate("live-lock-taken-over:mode="+sc.Mode+":call="+call, "an observer acquired the lock while the holder is alive, holding, and its heart beat on time")
 									} else if w.silence[i] <= 2*period {
 										x.Violate("live-lock-taken-over:without-two-periods-of-silence:call="+call, "an observer acquired the lock of a live holder; newest heart-beat write seen was %v old", w.silence[i])
 									}
@@ -368,6 +392,13 @@ func scenarios() []scenario {
 		scenario{Name: "ontime/H10/poll TryLock-override every 13ms", Mode: "ontime", HoldBeats: 10, Bound: 0, Observers: []observer{obs(13*time.Millisecond, rep("TryLock-override", 38)...)}},
 		scenario{Name: "ontime/H2/1obs(mem)", Mode: "ontime", Backend: "mem", HoldBeats: 2, Bound: 2, Observers: []observer{obs(30*time.Millisecond, "IsStale", "ReleaseIfStale", "TryLock-override")}},
 	)
+	// (a') one transient backend error in the holder's steady state: k-th operation after the lock directory was created
+	// and TryLock returned (a beat is OpenFile, Write, Close, Chtimes; k covers the first three beats of the hold)
+	for k := 1; k <= 14; k++ {
+		out = append(out, scenario{Name: fmt.Sprintf("glitch/op-%02d/H8/poll IsStale 7ms + TryLock-override 13ms", k), Mode: "glitch", HoldBeats: 8, GlitchAt: k, Bound: 0, Observers: []observer{
+			{Calls: rep("IsStale", 55), Gap: 7 * time.Millisecond, Offset: 100 * time.Microsecond},
+			{Calls: rep("TryLock-override", 29), Gap: 13 * time.Millisecond, Offset: 200 * time.Microsecond}}})
+	}
 	// (b) adversarial
 	out = append(out,
 		scenario{Name: "adversarial/H3/1obs gap60", Mode: "adversarial", HoldBeats: 3, Bound: 2, Observers: []observer{obs(60*time.Millisecond, "IsStale", "TryLock-override")}},
@@ -464,6 +495,13 @@ func TestC17(t *testing.T) {
 		if sc.Mode == "death" {
 			deathPoints++
 		}
+		if sc.Mode == "glitch" {
+			for o := range s.Outcomes {
+				if strings.Contains(o, "no-glitch") {
+					rep.EngineError("%s: the transient error was not injected in some execution (outcome %s)", sc.Name, o)
+				}
+			}
+		}
 		perScenario[sc.Name] = map[string]any{"executions": s.Execs, "transitions": s.Transitions, "bound": sc.Bound, "capped": s.Capped, "outcomes": s.Outcomes, "violating_executions": nv}
 		total.Merge(s)
 		for sig, ce := range s.Violations {
@@ -472,7 +510,7 @@ func TestC17(t *testing.T) {
 		for _, d := range s.Diverged {
 			rep.EngineError("%s", d)
 		}
-		if sc.Mode != "death" || nv > 0 {
+		if (sc.Mode != "death" && sc.Mode != "glitch") || nv > 0 {
 			fmt.Fprintf(os.Stderr, "[C17] %-60s executions=%d violations=%d cpu=%.0fs capped=%v\n", sc.Name, s.Execs, nv, s.WallS, s.Capped)
 		}
 	}
